@@ -3,6 +3,7 @@
 use crate::common::*;
 use crate::props::*;
 use crate::Args;
+use glam::DVec3;
 use meshless_voronoi::integrals::{AreaCentroidIntegral, AreaIntegral, VolumeCentroidIntegral, VolumeIntegral};
 use meshless_voronoi::verif;
 use meshless_voronoi::Voronoi;
@@ -201,6 +202,9 @@ pub fn c09(a: &Args, rep: &mut Report, out_dir: &std::path::Path) {
     }
     rep.nontrivial.extend(orders.iter().copied());
     rep.count("distinct_cell_start_orders", orders.len() as u64);
+    if leg.is_empty() || leg == "norayon" {
+        history_c09(a, rep);
+    }
     let legdir = out_dir.join("evidence").join("legs");
     let _ = std::fs::create_dir_all(&legdir);
     let name = if cfg!(feature = "par") { "rayon" } else { "norayon" };
@@ -234,6 +238,111 @@ pub fn c09(a: &Args, rep: &mut Report, out_dir: &std::path::Path) {
             rep.inconclusive(format!("only {} distinct cell start orders were observed: too few interleavings to call the comparison meaningful", orders.len()));
         }
     }
+}
+
+
+// ------------------------------------------------------------------------------------------------
+// history independence: the result of a call must not depend on which calls came before it (caches, statics,
+// thread-locals keyed by part of the input)
+
+/// Variants of one input that collide on everything but one argument: same raw positions with another dimensionality,
+/// periodic flag, box, mask; one generator moved; the list truncated or reversed.
+fn history_variants(base: &Case, r: &mut Rng) -> Vec<Case> {
+    let mut v = vec![];
+    let mk = |f: &dyn Fn(&mut Case)| {
+        let mut c = base.clone();
+        f(&mut c);
+        c.origin = format!("{}+variant", base.origin);
+        c
+    };
+    v.push(base.clone());
+    for d in [3usize, 2, 1] {
+        if d != base.dim {
+            v.push(mk(&|c| c.dim = d));
+        }
+    }
+    v.push(mk(&|c| c.periodic = !c.periodic));
+    // a larger box around the same points
+    v.push(mk(&|c| {
+        c.anchor -= 0.25 * c.width;
+        c.width *= 1.5;
+    }));
+    let n = base.n();
+    if n >= 2 {
+        let m1: Vec<bool> = (0..n).map(|_| r.bool()).collect();
+        let m2: Vec<bool> = m1.iter().map(|b| !b).collect();
+        v.push(mk(&|c| c.mask = Some(m1.clone())));
+        v.push(mk(&|c| {
+            c.mask = Some(m1.clone());
+            c.dim = if base.dim == 3 { 2 } else { 3 };
+        }));
+        v.push(mk(&|c| c.mask = Some(m2.clone())));
+        let j = r.below(n);
+        let t = DVec3::new(r.f(), r.f(), r.f());
+        v.push(mk(&|c| c.pts[j] = c.anchor + c.width * t));
+        v.push(mk(&|c| {
+            c.pts.truncate(n - 1);
+            if let Some(m) = c.mask.as_mut() {
+                m.truncate(n - 1);
+            }
+        }));
+        v.push(mk(&|c| c.pts.reverse()));
+    }
+    // only valid inputs (distinct after projection, inside the box)
+    v.retain(|c| c.validity().is_ok());
+    v
+}
+
+pub fn history_c09(a: &Args, rep: &mut Report) {
+    let ninputs = if a.tier == "thorough" { 400 } else { 60 };
+    let ninputs = ((ninputs as f64) * a.scale).ceil() as u64;
+    run_parallel(rep, ninputs, budget(a, 100., 900.), |k, rep| {
+        let o = GenOpts {
+            sizes: &[3, 8, 27, 64, 150],
+            families: &["uniform", "uniform", "lattice", "mildcluster", "gradient"],
+            mild_box: true,
+            ..Default::default()
+        };
+        let base = gen_case("C09history", "any", a.seed, k, &o);
+        let mut r = Rng::stream("C09history", &[a.seed, k]);
+        let vars = history_variants(&base, &mut r);
+        // (1) every variant on a fresh OS thread (fresh thread-locals), each in a private single-thread pool
+        let fresh: Vec<Option<[u64; 6]>> = vars
+            .iter()
+            .map(|c| std::thread::scope(|s| s.spawn(|| guarded(|| in_pool_of(1, || everything_digest(c))).ok()).join().ok().flatten()))
+            .collect();
+        // (2) all variants one after the other on ONE thread, forwards and backwards
+        let run_seq = |order: &[usize]| -> Vec<(usize, Option<[u64; 6]>)> {
+            std::thread::scope(|s| {
+                s.spawn(|| in_pool_of(1, || order.iter().map(|&i| (i, guarded(|| everything_digest(&vars[i])).ok())).collect::<Vec<_>>())).join().unwrap_or_default()
+            })
+        };
+        let fwd: Vec<usize> = (0..vars.len()).collect();
+        let bwd: Vec<usize> = (0..vars.len()).rev().collect();
+        let mut shuffled = fwd.clone();
+        r.shuffle(&mut shuffled);
+        for order in [&fwd, &bwd, &shuffled] {
+            for (pos, (i, d)) in run_seq(order).into_iter().enumerate() {
+                rep.count("history_calls_compared", 1);
+                if d != fresh[i] {
+                    let which: Vec<&str> = match (d, fresh[i]) {
+                        (Some(x), Some(y)) => (0..6).filter(|&q| x[q] != y[q]).map(|q| PARTS[q]).collect(),
+                        _ => vec!["one of the two runs panicked"],
+                    };
+                    rep.violations.push(Violation::new(
+                        "C09",
+                        "c09.depends_on_call_history",
+                        format!("the result of a call depends on the calls made before it on the same thread: variant {i} of {} (dim {}, periodic {}, mask {}) as call #{pos} of a sequence differs from the same call on a fresh thread in {which:?}", base.origin, vars[i].dim, vars[i].periodic, vars[i].mask.is_some()),
+                        Some(&vars[i]),
+                        json!({"sequence": order, "position": pos, "variant": i, "differs": which, "previous_call": if pos > 0 { Some(vars[order[pos - 1]].to_json()) } else { None }}),
+                    ));
+                    return;
+                }
+            }
+        }
+        rep.count("history_inputs", 1);
+        rep.count("history_variants", vars.len() as u64);
+    });
 }
 
 pub fn replay_c09(c: &Case, rep: &mut Report) {
